@@ -25,10 +25,12 @@ LocalMatches(L) ==
 
 TInit == Init /\ l = 1
 Reset == IsEv("Reset") /\ now' = 10 /\ nextid' = 101 /\ cursor' = 0 /\ grown' = FALSE
-         /\ tracker' = [i \in Issue |-> NoIssue] /\ local' = [i \in Issue |-> NoLocal] /\ res' = [kind |-> "none"]
+         /\ tracker' = [i \in Issue |-> NoIssue] /\ local' = [i \in Issue |-> NoLocal] /\ res' = [kind |-> "none"] /\ known' = {}
 TNewIssue == IsEv("NewIssue") /\ NewIssue(ev.i) /\ LocalMatches(local')
 TAddEvent == IsEv("AddEvent") /\ AddEvent(ev.i, ev.kind) /\ LocalMatches(local')
 TEditNote == IsEv("EditNote") /\ EditNote(ev.i, ev.k) /\ LocalMatches(local')
+IsUserFail == Len(ev.fail) = 6 /\ SubSeq(ev.fail, 1, 5) = "user:"
+FailUser == IF SubSeq(ev.fail, 6, 6) = "1" THEN 1 ELSE 2
 (* a round in which no request was made to fail: no error, complete, cursor stored *)
 TRoundClean == /\ IsEv("Round") /\ ev.fail = "none"
                /\ ~ev.error /\ ev.advanced
@@ -37,14 +39,22 @@ TRoundClean == /\ IsEv("Round") /\ ev.fail = "none"
    requests delivered *)
 FailClass == IF ev.fail = "issues" THEN "issues" ELSE SubSeq(ev.fail, 1, Len(ev.fail) - 2)
 FailIssue == IF ev.fail = "issues" THEN 1 ELSE IF SubSeq(ev.fail, Len(ev.fail), Len(ev.fail)) = "1" THEN 1 ELSE 2
-TRoundFailed == /\ IsEv("Round") /\ ev.fail # "none"
+TRoundFailed == /\ IsEv("Round") /\ ev.fail # "none" /\ ~IsUserFail
                 /\ ev.error /\ ~ev.advanced
                 /\ RoundFailedAt(FailClass, FailIssue) /\ LocalMatches(local')
 (* the failing request was never made (its issue was not listed): the round is a clean one *)
-TRoundNoFault == /\ IsEv("Round") /\ ev.fail # "none" /\ ev.fail # "issues" /\ FailIssue \notin Listed
+TRoundNoFault == /\ IsEv("Round") /\ ev.fail # "none" /\ ev.fail # "issues" /\ ~IsUserFail /\ FailIssue \notin Listed
                  /\ ~ev.error /\ ev.advanced
                  /\ RoundClean /\ LocalMatches(local')
-TraceNext == Reset \/ TNewIssue \/ TAddEvent \/ TEditNote \/ TRoundClean \/ TRoundFailed \/ TRoundNoFault
+(* the lookup of a user fails: an error and no cursor when the lookup was actually made (the user not known yet and met in this
+   round); a clean round otherwise *)
+TRoundFailedUser == /\ IsEv("Round") /\ IsUserFail /\ FailUser \notin known /\ UserHit(FailUser)
+                    /\ ev.error /\ ~ev.advanced
+                    /\ RoundFailedUser(FailUser) /\ LocalMatches(local')
+TRoundUserNoFault == /\ IsEv("Round") /\ IsUserFail /\ ~(FailUser \notin known /\ UserHit(FailUser))
+                     /\ ~ev.error /\ ev.advanced
+                     /\ RoundClean /\ LocalMatches(local')
+TraceNext == Reset \/ TNewIssue \/ TAddEvent \/ TEditNote \/ TRoundClean \/ TRoundFailed \/ TRoundNoFault \/ TRoundFailedUser \/ TRoundUserNoFault
 (* the action properties of Bridge, per session (a Reset starts a new one) *)
 MonotoneT == [][(ev.ev = "Reset") \/ (\A i \in Issue : local[i].ids \subseteq local'[i].ids /\ (local[i].known => local'[i].known))]_tvars
 IdempotentT == [][(ev.ev = "Reset") \/ ((~grown /\ res.kind = "round" /\ res'.kind = "round" /\ ~res'.error /\ now' = now + 10) => local' = local)]_tvars
